@@ -23,6 +23,9 @@ func VerifDeliverSegments(payload []byte, segSize int) (pieces [][]byte, aliasOK
 	}()
 	off := 0
 	deliverSegments(func(a netip.AddrPort, seg []byte) {
+		if len(pieces) > len(payload)+2 {
+			panic("verif: deliverSegments does not terminate") // reported as an observation (panicked)
+		}
 		if a != from {
 			aliasOK = false
 		}
